@@ -125,6 +125,21 @@ var pickOps = []string{"have", "have", "haveall", "allowedfast", "unchoke", "unc
 
 func genPick(t *rapid.T) PickCase {
 	c := PickCase{L: model.GenLayout(t, model.LayoutOpts{MaxTotal: 24 * 16384, MaxPieces: 24, MaxFiles: 4, BigPieces: true, NoPadding: true})}
+	if rapid.IntRange(0, 2).Draw(t, "manyPieces") == 0 {
+		// web-seed ranges span 5% of the pieces: only torrents of 40+ pieces have ranges longer than one piece (needed for steals)
+		np := rapid.IntRange(40, 90).Draw(t, "np")
+		nf := rapid.IntRange(1, 3).Draw(t, "nf")
+		c.L = model.Layout{Name: "t", PieceLength: 16384, Seed: rapid.Uint64Range(1, 1<<30).Draw(t, "seed2")}
+		rem := int64(np) * 16384
+		for i := 0; i < nf; i++ {
+			ln := rem
+			if i < nf-1 {
+				ln = rapid.Int64Range(1, rem-int64(nf-i)).Draw(t, "flen")
+			}
+			c.L.Files = append(c.L.Files, model.FileSpec{Path: []string{fmt.Sprintf("f%d", i)}, Length: ln})
+			rem -= ln
+		}
+	}
 	c.NPeers = rapid.IntRange(1, 5).Draw(t, "npeers")
 	c.MaxDup = rapid.IntRange(1, 4).Draw(t, "maxdup")
 	c.Sequential = rapid.Bool().Draw(t, "seq")
@@ -360,25 +375,6 @@ func runPick(c PickCase) core.Result {
 		lab["ws-range"] = true
 	}
 	wsPick := func(i int) { wsPickSrc(sources[i]) }
-	drainClose := func(src *webseedsource.WebseedSource) {
-		// the downloader may be blocked handing over a result: take (and drop) it while closing
-		stop := make(chan struct{})
-		go func() {
-			for {
-				select {
-				case r := <-resultC:
-					if r.Error == nil {
-						r.Buffer.Release()
-					}
-				case <-stop:
-					return
-				}
-			}
-		}()
-		pk.CloseWebseedDownloader(src)
-		close(stop)
-	}
-	_ = drainClose
 	for oi, op := range c.Ops {
 		p := op.P
 		i := op.I % np
@@ -479,7 +475,7 @@ func runPick(c PickCase) core.Result {
 			if len(sources) > 0 {
 				src := sources[op.P%len(sources)]
 				if src.Downloader != nil {
-					drainClose(src)
+					pk.CloseWebseedDownloader(src) // Close interrupts a pending hand-over of a result
 					src.Disabled = true
 					lab["ws-error"] = true
 					pickAll()
@@ -503,7 +499,7 @@ func runPick(c PickCase) core.Result {
 				}
 			}
 			if r == nil {
-				fail = "web seed downloader produced no piece although its server released data"
+				fail = fmt.Sprintf("web seed downloader [%d,%d) at piece %d produced no piece although its server released data", src.Downloader.Begin, src.Downloader.End, src.Downloader.ReadCurrent())
 				break
 			}
 			if r.Error != nil {
